@@ -798,6 +798,19 @@ class Gen:
                 return None
             return self.try_op("vdot", [["n", i], ["n", j]])
         k = v.shape[-1]
+        if op == "matmul" and v.a.ndim == 3 and v.a.size <= 40 \
+                and self.cfg.max_ndim >= 4 and self.boolean(1, 3):
+            # batched product of operands of DIFFERENT rank (3-d @ 4-d): the
+            # lower-rank operand's batch axes align with the trailing ones
+            t = self.try_op("transpose", [["n", i]], {"axes": [0, 2, 1]})
+            if t is not None:
+                t4 = self.try_op("stack", [["n", t], ["n", t]], {"axis": 0})
+                if t4 is not None:
+                    args = [["n", i], ["n", t4]] if self.boolean() else \
+                        [["n", t4], ["n", i]]
+                    r = self.try_op("matmul", args)
+                    if r is not None:
+                        return r
 
         def ok(w):
             if not pred(w):
